@@ -81,6 +81,9 @@ func (r *ComDoc) ListDir(parent *DirEnt) ([]*DirEnt, error) {
 	if parent.StorageRoot < 0 {
 		return nil, nil
 	}
+	if int(parent.StorageRoot) >= len(r.Files) {
+		return nil, errors.New("directory entry refers to a nonexistent entry")
+	}
 	top := &r.Files[parent.StorageRoot]
 	stack := []*DirEnt{top}
 	var files []*DirEnt
@@ -89,6 +92,10 @@ func (r *ComDoc) ListDir(parent *DirEnt) ([]*DirEnt, error) {
 		item := stack[i]
 		stack = stack[:i]
 		files = append(files, item)
+		if item.LeftChild < -1 || int(item.LeftChild) >= len(r.Files) ||
+			item.RightChild < -1 || int(item.RightChild) >= len(r.Files) {
+			return nil, errors.New("directory entry refers to a nonexistent entry")
+		}
 		if item.LeftChild != -1 {
 			stack = append(stack, &r.Files[item.LeftChild])
 		}
